@@ -417,3 +417,6 @@ func EdgesWithFact(fn *ssa.Function, pred func(Fact) bool) []Edge {
 // OnlyEdges builds an edge filter that, for every block that is the source of one of the given
 // edges, allows only the OTHER out-edges (i.e. forbids taking the listed edges).
 func OnlyOtherEdges(edges []Edge) EdgeFilter { return ForbidEdges(edges) }
+
+// EdgeFactsFor returns the facts that hold when control flows pred -> succ.
+func (fs *Facts) EdgeFactsFor(pred, succ *ssa.BasicBlock) FactSet { return fs.edgeFacts(pred, succ) }
